@@ -22,6 +22,7 @@ import (
 	"strconv"
 	"strings"
 	"sync"
+	"time"
 	"unicode/utf8"
 
 	"verifharness/vh"
@@ -711,13 +712,45 @@ func runJobs(js []*job) {
 	wg.Wait()
 }
 
+// privateDriver copies the driver binary to a private temporary file: the shared binary under
+// lean/.lake/build/bin is replaced whenever any property's driver files are rebuilt, and a long run
+// must not lose it half way. Retries while the file is momentarily absent.
+func privateDriver(path string) (string, func()) {
+	for try := 0; try < 60; try++ {
+		b, err := os.ReadFile(path)
+		if err == nil && len(b) > 0 {
+			f, err := os.CreateTemp("", "c16-driver-*")
+			if err != nil {
+				break
+			}
+			_, werr := f.Write(b)
+			f.Close()
+			if werr == nil && os.Chmod(f.Name(), 0o755) == nil {
+				return f.Name(), func() { os.Remove(f.Name()) }
+			}
+			os.Remove(f.Name())
+		}
+		time.Sleep(time.Second)
+	}
+	return path, func() {}
+}
+
 func main() {
+	os.Exit(realMain())
+}
+
+func realMain() int {
 	flag.Parse()
+	if !*nomodel {
+		p, cleanup := privateDriver(*driver)
+		*driver = p
+		defer cleanup()
+	}
 	seed := vh.SeedFromEnv()
 	rep := vh.NewReport("C16", *tier, seed, "N-Triples/N-Quads documents assembled token by token (IRIs and literals with multi-byte, astral, UCHAR/ECHAR, raw line breaks, ill-formed UTF-8 bytes, occasionally combining marks/ZWJ/regional indicators/Hangul jamo; blank node labels with dots; language tags; datatypes; graph names; separators none/space/tab/comment/CR/LF/CRLF/U+00A0/U+2028; 1-4 statements; trailing comments), byte-level mutations and truncations of those, reader ending in EOF or an injected error, offset capture plain / explicit zero / random initial offset (byte<2000, line<60, column<90). Every document is decoded with capture on and off on the implementation and on the model (bytes and lines always compared, columns only when every rune of the document is in TW.simple: TAB LF CR, printable ASCII, U+00A0-02FF, CJK U+4E00-9FFF, U+FFFD, U+10000-100FF, U+1F600-1F64F). Non-trivial = at least one statement with ranges or an error carrying an offset.")
 	if _, err := vh.LoadFindings(*findings); err != nil {
 		fmt.Fprintln(os.Stderr, "findings:", err)
-		os.Exit(2)
+		return 2
 	}
 	g := &dgen{r: vh.NewRng(seed)}
 	total := 20000 * *scale
@@ -728,7 +761,11 @@ func main() {
 	var simpleLines []string
 	var simpleWant []string
 
+	var driverErr error
 	finish := func(js []*job) {
+		if driverErr != nil {
+			return
+		}
 		runJobs(js)
 		var lines []string
 		for _, j := range js {
@@ -739,8 +776,8 @@ func main() {
 			var err error
 			res, err = vh.Driver{Path: *driver}.RunParallel(lines)
 			if err != nil {
-				fmt.Fprintln(os.Stderr, err)
-				os.Exit(2)
+				driverErr = err
+				return
 			}
 		}
 		for i, j := range js {
@@ -794,7 +831,7 @@ func main() {
 		b, err := os.ReadFile(*replay)
 		if err != nil {
 			fmt.Fprintln(os.Stderr, err)
-			os.Exit(2)
+			return 2
 		}
 		lines := strings.Split(strings.TrimSpace(string(b)), "\n")
 		if strings.HasPrefix(strings.TrimSpace(string(b)), "{") { // a replay file written by ./check
@@ -859,6 +896,10 @@ func main() {
 	if len(batch) > 0 {
 		finish(batch)
 	}
+	if driverErr != nil {
+		fmt.Fprintln(os.Stderr, driverErr)
+		return 2
+	}
 	if !*nomodel && len(simpleLines) > 0 {
 		// every rune class boundary of the predicate
 		for _, r := range []rune{0x08, 0x09, 0x0a, 0x0b, 0x0d, 0x1f, 0x20, 0x7e, 0x7f, 0x9f, 0xa0, 0x2ff, 0x300, 0x4dff, 0x4e00, 0x9fff, 0xa000, 0xfffc, 0xfffd, 0xfffe, 0xffff, 0x10000, 0x100ff, 0x10100, 0x1f5ff, 0x1f600, 0x1f64f, 0x1f650} {
@@ -868,7 +909,7 @@ func main() {
 		res, err := vh.Driver{Path: *driver}.RunParallel(simpleLines)
 		if err != nil {
 			fmt.Fprintln(os.Stderr, err)
-			os.Exit(2)
+			return 2
 		}
 		for i := range res {
 			compared++
@@ -885,7 +926,7 @@ func main() {
 	}
 	if err := rep.Write(*out); err != nil {
 		fmt.Fprintln(os.Stderr, err)
-		os.Exit(2)
+		return 2
 	}
 	mode := ""
 	if *nomodel {
@@ -893,6 +934,7 @@ func main() {
 	}
 	fmt.Printf("c16%s: %d documents, %d lines compared with the model, %d failures\n", mode, rep.Evaluations, compared, rep.Failures())
 	if rep.Failures() > 0 {
-		os.Exit(1)
+		return 1
 	}
+	return 0
 }
